@@ -75,24 +75,30 @@ class Analysis:
             if loop_bound is not None:
                 it.loop_bound = loop_bound
             try:
-                # generous helper inlining first; the usual limit when that explodes
+                # generous helper inlining first; the usual limit when that explodes; and
+                # as the last resort every loop unrolled once instead of twice (a function
+                # with several branching loops: fewer iterations rather than no verdict)
                 found = None
-                for helper_paths, budget in ((48, 400000), (saved[1], None)):
-                    if budget is not None and callee.fn.qn in self._no_generous:
+                attempts = [(48, 300000, it.loop_bound), (saved[1], 500000, it.loop_bound)]
+                if loop_bound is None and it.loop_bound > 1:
+                    attempts.append((saved[1], 300000, 1))
+                for number, (helper_paths, budget, bound) in enumerate(attempts):
+                    if number == 0 and callee.fn.qn in self._no_generous:
                         continue
-                    it.HELPER_PATHS, it.budget = helper_paths, budget
+                    it.HELPER_PATHS, it.budget, it.loop_bound = helper_paths, budget, bound
                     try:
-                        found = it.paths_of(callee, assume, hole, which)
-                        if budget is None or len(found) <= 8000:
-                            break
-                        self._no_generous.add(callee.fn.qn)
+                        got = it.paths_of(callee, assume, hole, which)
                     except AnalysisError:
-                        if budget is None:
-                            raise
+                        got = None
+                    if number == 0 and (got is None or len(got) > 8000):
                         self._no_generous.add(callee.fn.qn)
+                    if got is not None and (found is None or len(got) < len(found)):
+                        found = got
+                    if found is not None and len(found) <= (8000 if number == 0 else 20000):
+                        break
             finally:
                 it.loop_bound, it.HELPER_PATHS, it.budget = saved
-            if len(found) > 20000:
+            if found is None or len(found) > 20000:
                 raise AnalysisError('too many paths in %s' % callee)
             self._rule_paths[key] = found
         return found
